@@ -131,7 +131,9 @@ Definition late_ok (expected : obs state) (l : option (obs state)) : bool :=
   match l with None => true | Some o => obs_eqb state_equiv expected o end.
 
 Record step_view := {
-  sv_model : obs state; sv_app : bool; sv_cons : bool; sv_spec : state; sv_agree : bool; sv_ok : bool
+  sv_model : obs state; sv_app : bool; sv_cons : bool; sv_spec : state;
+  sv_agree : bool; sv_ok : bool;                 (* the state read back at once *)
+  sv_late_agree : bool; sv_late_ok : bool        (* the same State object read back after the last call *)
 }.
 
 Section Seq.
@@ -151,19 +153,21 @@ Section Seq.
     let nxt := successor eps tt objs A (sq_args q) s_in in
     let agree :=
       Bool.eqb (is_evalue m_res) (ss_valerr st) &&
-      (if cons_m then obs_eqb state_equiv (obs_of_result m_res) (ss_succ st) && late_ok (obs_of_result m_res) (ss_late st)
+      (if cons_m then obs_eqb state_equiv (obs_of_result m_res) (ss_succ st)
        else Bool.eqb (is_ok m_res) (negb (obs_raised (ss_succ st)))) in
     let ok :=
       if app || ss_allow st then
-        (if cons_s then obs_eqb state_equiv (Returned nxt) (ss_succ st) && late_ok (Returned nxt) (ss_late st)
-         else negb (obs_raised (ss_succ st)))
+        (if cons_s then obs_eqb state_equiv (Returned nxt) (ss_succ st) else negb (obs_raised (ss_succ st)))
       else obs_raised (ss_succ st) && ss_valerr st in
+    let late_agree := negb cons_m || late_ok (obs_of_result m_res) (ss_late st) in
+    let late_okb := negb (app || ss_allow st) || negb cons_s || late_ok (Returned nxt) (ss_late st) in
     (* where the firing effects are inconsistent PDDL does not define the state: both chains go on from the state
        the implementation returned *)
     let observed (dflt : state) := match ss_succ st with Returned x => x | Raised => dflt end in
     let m_next := if cons_m then match m_res with Ok s' => s' | Err _ => m_in end else observed m_in in
     let s_next := if app || ss_allow st then (if cons_s then nxt else observed s_in) else s_in in
-    ({| sv_model := obs_of_result m_res; sv_app := app; sv_cons := cons_s; sv_spec := nxt; sv_agree := agree; sv_ok := ok |},
+    ({| sv_model := obs_of_result m_res; sv_app := app; sv_cons := cons_s; sv_spec := nxt; sv_agree := agree; sv_ok := ok;
+        sv_late_agree := late_agree; sv_late_ok := late_okb |},
      m_next, s_next).
 
   Fixpoint seq_views (m_cur s_cur : state) (steps : list sstep) : list step_view :=
@@ -173,20 +177,22 @@ Section Seq.
     end.
 End Seq.
 
-Definition judge_seq (w : world3) (md : mdomain) (sd : sdomain) (q : seq3) : verdict :=
+(* two verdicts per sequence: the states as read back at once; the same State objects read back after the last call *)
+Definition judge_seq (w : world3) (md : mdomain) (sd : sdomain) (q : seq3) : list verdict :=
   match find_action sd (sq_action q), dget (d_actions md) (sq_action q) with
   | Some A, Some _ =>
       let vs := seq_views w md sd A q (sq_start q) (sq_start q) (sq_steps q) in
-      {| v_agree := forallb sv_agree vs; v_ok := forallb sv_ok vs; v_known := false |}
+      [ {| v_agree := forallb sv_agree vs; v_ok := forallb sv_ok vs; v_known := false |};
+        {| v_agree := forallb sv_late_agree vs; v_ok := forallb sv_late_ok vs; v_known := false |} ]
   | _, _ =>
       let r := forallb (fun st => obs_raised (ss_succ st)) (sq_steps q) in
-      {| v_agree := r; v_ok := r; v_known := false |}
+      [ {| v_agree := r; v_ok := r; v_known := false |}; {| v_agree := true; v_ok := true; v_known := false |} ]
   end.
 
 Definition judge_world3 (w : world3) : list verdict :=
   match model_domain (core_world w), spec_domain (core_world w) with
-  | Ok md, Some sd => flat_map (judge_probe w md sd) (v_probes w) ++ map (judge_seq w md sd) (v_seqs w)
-  | _, _ => flat_map (fun _ => [broken; broken]) (v_probes w) ++ map (fun _ => broken) (v_seqs w)
+  | Ok md, Some sd => flat_map (judge_probe w md sd) (v_probes w) ++ flat_map (judge_seq w md sd) (v_seqs w)
+  | _, _ => flat_map (fun _ => [broken; broken]) (v_probes w) ++ flat_map (fun _ => [broken; broken]) (v_seqs w)
                                                                    (* the implementation parsed it, a reading did not *)
   end.
 
@@ -299,11 +305,13 @@ Definition explain_seqs (w : anyworld) :=
       map (fun q =>
              (sq_action q, sq_args q, sq_order q, sq_uorder q, sq_start q,
               match find_action sd (sq_action q) with
-              | Some A => map (fun sv => (sv_model sv, sv_app sv, sv_cons sv, sv_spec sv, sv_agree sv, sv_ok sv))
+              | Some A => map (fun sv => (sv_model sv, sv_app sv, sv_cons sv, sv_spec sv, (sv_agree sv, sv_ok sv, sv_late_agree sv, sv_late_ok sv)))
                               (seq_views v md sd A q (sq_start q) (sq_start q) (sq_steps q))
               | None => []
               end,
-              verdict_char (judge_seq v md sd q)))
+              map verdict_char (judge_seq v md sd q)))
           (v_seqs v)
   | _, _ => []
   end.
+
+Definition explain_all (w : anyworld) := (explain w, explain_seqs w).
